@@ -387,6 +387,7 @@ class _BaseODE:
             rb = self._ensure_index_type(rb)
             vec = np.zeros(self.n, bool)
             vec[rb] = True
+            rb = np.nonzero(vec)[0]  # same (ascending) order as _rb
             _rb = np.nonzero(vec[self.nonrf])[0]
         _el = np.ones(self.ksize, bool)
         _el[_rb] = False
